@@ -200,11 +200,21 @@ def entry(a, idx, env=None):
                 return UNKNOWN
             return entry(st['value'], rel, e2) if isinstance(st['value'], Arr) or not isinstance(st['value'], (int, float, complex)) else ('num', st['value'])
         return ('zero',) if alloc.tags.get('alloc') == 'zeros' else ('num', 1)
-    # ---- reshape that keeps the shape
+    # ---- opaque input arrays that carry a name: the entry is that array's entry
+    if a.origin != 'getitem' and not a.tags.get('is_reshape') and ('element' in a.tags or 'role' in a.tags) and 'stores' not in a.tags:
+        return ('src', (a.tags.get('element', a.tags.get('role')), id(a)), tuple(idx))
+    # ---- reshape that keeps the shape, or only inserts / removes axes of size one
     if a.tags.get('is_reshape') and a.parents:
         p = a.parents[0]
         if len(p.shape) == len(a.shape) and all(sz_eq(x, y) for x, y in zip(p.shape, a.shape)):
             return entry(p, idx, env)
+        nz_a = [k for k, n in enumerate(a.shape) if not A.is_one(n)]
+        nz_p = [k for k, n in enumerate(p.shape) if not A.is_one(n)]
+        if len(nz_a) == len(nz_p) and all(sz_eq(a.shape[x], p.shape[y]) for x, y in zip(nz_a, nz_p)):
+            pidx = [0] * p.ndim
+            for x, y in zip(nz_a, nz_p):
+                pidx[y] = idx[x]
+            return entry(p, pidx, env)
         return UNKNOWN
     # ---- np.array of (nested) lists / comprehensions
     if a.origin == 'array' and 'elements' in a.tags:
@@ -316,6 +326,16 @@ def same_content(a, b):
         return abs(complex(a[1]) - complex(b[1])) < 1e-15
     if a[0] == 'zero':
         return True
+    if a[0] == 'src':
+        if a[1] != b[1] or len(a[2]) != len(b[2]):
+            return False
+        for x, y in zip(a[2], b[2]):
+            e = idx_eq(x, y)
+            if e is None:
+                return None
+            if not e:
+                return False
+        return True
     if a[0] in ('sum', 'prod'):
         if len(a[1]) != len(b[1]):
             return False
@@ -366,6 +386,8 @@ def show(c):
         return f'f{list(c[1])}({p[0]}[{pos}])'
     if c[0] == 'num':
         return str(c[1])
+    if c[0] == 'src':
+        return f'{c[1]}[{", ".join(str(i) for i in c[2])}]'
     if c[0] == 'prod':
         return ' * '.join(show(x) for x in c[1])
     if c[0] == 'sum':
